@@ -9,6 +9,8 @@ package main
 // Malformed stream (op json_raw): outcome class of model vs implementation.
 // Golden anchors: the byte strings of the repo's TestJSON replayed through the
 // model, and hand-written documents whose `ser` must equal them byte for byte.
+// End to end: histories whose tables have JSON columns (typedHistories), the
+// documents being values of row images (op mkevent / expect_image, (json <doc>)).
 
 import (
 	"bufio"
@@ -950,7 +952,7 @@ func (x *c14run) runBatch(cases []c14case) {
 }
 
 func runC14(c *Ctx) {
-	c.R.Rule = "documents by (source, constructor set (named when <= 4 kinds), depth, container formats small/large/mixed, entries inlined/out-of-line/both, total size class); malformed inputs by (mutation, outcome class); trivial = none"
+	c.R.Rule = "documents by (source, constructor set (named when <= 4 kinds), depth, container formats small/large/mixed, entries inlined/out-of-line/both, total size class); malformed inputs by (mutation, outcome class); end-to-end histories with JSON columns by (stream configuration, NULLs seen, absent columns seen); trivial = none"
 	x := &c14run{c: c, g: &jgen{r: c.Rng}}
 	x.g.decFixed = probeDecimalFixed()
 	if !x.g.decFixed {
@@ -1100,6 +1102,11 @@ func runC14(c *Ctx) {
 	// 6. malformed stream
 	x.malformed()
 	lap("malformed")
+
+	// 7. end to end: histories whose tables have JSON columns only (documents as row values, NULLs, partial images),
+	// through parseEvents against the model and the unit-level oracle (expected cells from Spec.Values.text)
+	typedHistories(c, "C14", colCasesC14, c.N(25, 400))
+	lap("end-to-end")
 
 	c.R.Notes = append(c.R.Notes,
 		fmt.Sprintf("documents of >= 64 KB: %d", x.bigSeen),
